@@ -104,6 +104,8 @@ def build_X(xs, n, nonneg=False, d=None):
         X = 0.3 * rs.randn(n, d)
         X[:, :w] = 0.0
         X[np.arange(n), np.arange(n) % max(1, w - 1)] = 1.0
+    elif kind == "mixed_units":  # unstandardised columns: an income in euros next to a standardised score
+        X = rs.randn(n, d) * rs.choice([1.0, 1e3, 1e5, 1e-3, 1.0], size=d) + rs.choice([0.0, 0.0, 50.0], size=d)
     elif kind == "sentinel":  # ordinary values mixed with a missing-value code of extreme magnitude in one column
         X = rs.randn(n, d)
         rows = rs.choice(n, size=max(1, n // 5), replace=False)
